@@ -15,11 +15,11 @@ import translate
 PID = "C09"
 
 ALPHA = {
-    "I": list("019+-.E a$'"),
+    "I": list("019+-.E a$';"),
     "R": list("019+-.Ee a"),
     "N": list("019+-.Ee a"),
 }
-SUFFIX = [",7", " )", "", "\t , x", ")"]
+SUFFIX = [",7", " )", "", "\t , x", ")", ";#2=X(1,2)"]
 
 INT_RE = re.compile(r"^[+-]?[0-9]+$")
 REAL_RE = re.compile(r"^[+-]?[0-9]+\.[0-9]*(E[+-]?[0-9]+)?$")
@@ -34,9 +34,15 @@ def hexs(s):
 def token_of(data):
     """text between leading white space and the first delimiter / end"""
     t = data.lstrip(" \t\n\v\f\r")
-    m = re.search(r"[,)\x00]", t)
+    m = re.search(r"[,)\x00;]", t)        # a semicolon ends the instance: the reader's recovery stops there too
     body = t if not m else t[:m.start()]
     return body.rstrip(" \t\n\v\f\r"), (None if not m else len(t) - m.start())
+
+
+def stopped_at_semicolon(data):
+    t = data.lstrip(" \t\n\v\f\r")
+    m = re.search(r"[,)\x00;]", t)
+    return bool(m) and t[m.start()] == ";"
 
 
 def oracle(kind, data, ans):
@@ -47,6 +53,9 @@ def oracle(kind, data, ans):
         return "delimiter consumed or not reached: %d bytes left, expected %d" % (remaining, rem_expected)
     if tok == "":
         return None   # empty value: decided by the caller (null pre-check), not at this layer
+    if stopped_at_semicolon(data):
+        # the instance ends right after the value, without ',' or ')': never a clean read, whatever the value
+        return None if sev < 3 else "value %r followed by ';' instead of a delimiter is read without an error" % tok
     if kind == "I":
         if INT_RE.match(tok):
             z = int(tok)
